@@ -597,6 +597,8 @@ class Interp:
                 except pf.NotLiteral:
                     pass
             return Opaque("global", e.id)
+        if isinstance(e, ast.Set) and e.elts and all(isinstance(el, ast.Constant) for el in e.elts):
+            return LitList([el.value for el in e.elts])
         if isinstance(e, (ast.List, ast.Tuple)):
             n = Lin.c(0)
             for el in e.elts:
